@@ -25,7 +25,11 @@ uint64_t vp_lookup(const char *name, int idx) {
     return 0;
 }
 void vp_assert_fail(const char *msg) { printf("REPLAY-ASSERT-FAIL: %s\n", msg); fflush(stdout); failures++; }
-void vp_assume_fail(const char *msg) { printf("REPLAY-ASSUME-FAIL: %s\n", msg); fflush(stdout); exit(3); }
+void vp_assume_fail(const char *msg) {
+    // assumptions are not retroactive: an assertion that failed before this point stands
+    if (failures) { printf("REPLAY-RESULT: reproduced (%d assertion(s) failed before a later assumption cut the run)\n", failures); fflush(stdout); exit(1); }
+    printf("REPLAY-ASSUME-FAIL: %s\n", msg); fflush(stdout); exit(3);
+}
 void harness(void);
 int main(void) {
     harness();
